@@ -145,8 +145,32 @@ def run_algebra(case):
       _guard(lambda: b.add(extra), f'{what}: add to operand after merge')
       _check_value(e, cfg, a, a_rows + b_rows + extra, f'{what}: receiver after the operand got {extra}', 'update-leaks-into-receiver')
       _check_value(e, cfg, b, b_rows + extra, f'{what}: operand after its own add', 'add-after-merge-wrong')
+  # one n-ary merge_states call over many states, handed over as a list / tuple / one-shot iterator / generator: the result
+  # covers every state and only the first state may have been modified
+  if api == 'agg' and case.get('nary'):
+    m, as_ = case['nary']
+    handles, rowsets = [], []
+    for j in range(m):
+      h = Handle(e, cfg, api)
+      rows = leaves[j % len(leaves)]
+      if rows:
+        h.add(rows)
+      handles.append(h)
+      rowsets.append(list(rows))
+    states = [h.state for h in handles]
+    given = {'list': lambda: states, 'tuple': lambda: tuple(states), 'iter': lambda: iter(states), 'gen': lambda: (x for x in states)}[as_]()
+    fn = handles[0].fn
+    merged = _guard(lambda: fn.merge_states(given), f'{what}: merge_states over {m} states given as {as_}')
+    allrows = [r for rs in rowsets for r in rs]
+    if allrows:
+      mh = Handle(e, cfg, api)
+      mh.state = merged
+      _check_value(e, cfg, mh, allrows, f'{what}: merge_states over {m} states given as {as_}', 'grouping-or-order-changes-result')
+      for j in range(1, m):
+        if rowsets[j]:
+          _check_value(e, cfg, handles[j], rowsets[j], f'{what}: state {j} of {m} after the n-ary merge_states ({as_})', 'merge-damages-operand')
   n_nonempty = sum(1 for l in leaves if l)
-  cl = [e.name, f'api-{api}']
+  cl = [e.name, f'api-{api}'] + ([f'nary-{case["nary"][1]}'] if api == 'agg' and case.get('nary') else [])
   if any(not l for l in leaves):
     cl.append('empty-state')
   return {'nontrivial': len(leaves) >= 3 or any(not l for l in leaves) or bool(case['extra']) and n_nonempty >= 2, 'classes': cl}
@@ -187,7 +211,7 @@ def strat_algebra(tier):
     trees = _trees(draw, n, 3)
     extra = draw(st.lists(e.row(cfg), min_size=0, max_size=3))
     return {'entry': e.name, 'cfg': cfg, 'api': draw(st.sampled_from(list(e.apis))), 'leaves': leaves, 'trees': trees,
-            'extra': extra}
+            'extra': extra, 'nary': [draw(st.sampled_from([2, 3, 5, 16, 17, 18, 33, 40])), draw(st.sampled_from(['list', 'tuple', 'iter', 'gen']))]}
   return s()
 
 
